@@ -124,6 +124,7 @@ func runBufSeq(cs cleanerSpec, ops []seqOp, settleBeats int) *seqResult {
 			if err := b.Put(context.Background(), args...); err != nil {
 				out.Err = err.Error()
 			}
+			poisonArgs(args)
 		case bNewConsumer:
 			cons, err := b.NewConsumer()
 			if err != nil {
